@@ -249,7 +249,10 @@ def is_site(o):
 
 def root_param(o):
     """Parameter name an origin belongs to (None for sites / globals)."""
-XX
+    if o.startswith(('P:', 'E:', 'N:')):
+        return o[2:]
+    if o.startswith('S:'):
+        return 'self'
     return None
 
 
@@ -258,6 +261,8 @@ def describe_origin(o):
         return f'parameter {o[2:]}'
     if o.startswith('E:'):
         return f'elements of parameter {o[2:]}'
+    if o.startswith('N:'):
+        return f'a container nested in parameter {o[2:]}'
     if o.startswith('S:'):
         return f'self.{o[2:]}'
     if o.startswith('G:'):
